@@ -354,7 +354,21 @@ func c15Specs(tier string) []*h.SeqSpec {
 					}
 					logStart := vos.LogLen()
 					r := w.Do(req)
-					return c15Judge(w, rq, r, logStart)
+					vs := c15Judge(w, rq, r, logStart)
+					if r.Status >= 400 && r.Status < 500 && r.Panic == "" && strings.Contains(string(r.Body), `"NAME_INVALID"`) {
+						// a disallowed name is disallowed whatever the state: the same request is refused in the same way again
+						// (a name the store refuses must not become acceptable by asking twice)
+						for i := 2; i <= 3; i++ {
+							logStart = vos.LogLen()
+							r2 := w.Do(req)
+							vs = append(vs, c15Judge(w, rq, r2, logStart)...)
+							if r2.Panic == "" && (r2.Status != r.Status || !strings.Contains(string(r2.Body), `"NAME_INVALID"`)) {
+								vs = append(vs, h.V("code-for-condition", fmt.Sprintf("disallowed-name-accepted-when-asked-again:%d-then-%d", r.Status, r2.Status), "%s %s?%s was refused as NAME_INVALID (%s); attempt %d of the same request answers %s", req.Method, clipS(req.Path), req.Query, r, i, r2))
+								break
+							}
+						}
+					}
+					return vs
 				}})
 			}
 			specs = append(specs, &h.SeqSpec{
@@ -486,7 +500,7 @@ func init() {
 	h.RegisterSeq(&h.SeqCheck{
 		ID:    "C15",
 		Level: "model_checking",
-		Rule: "every request of a grammar (8 methods x every route x repository names inside and outside the OCI grammar incl. reserved, upper case, 300 characters, empty and dot segments x references, digests, session ids, state tokens, ranges, n/last, page/cache, digest and mount parameters at and beyond their bounds x bodies and Content-Types) is executed from each of 4-5 repository states (empty, populated, open sessions incl. one with a declared digest, paged referrers, converted layout with the referrers API disabled) on both stores, each on a fresh instance; in the thorough tier every request is sent again from every distinct state that one request leaves behind (depth 2: ended sessions, deleted content, half-written uploads), with the condition-specific code only demanded for first requests; " +
+		Rule: "every request of a grammar (8 methods x every route x repository names inside and outside the OCI grammar incl. reserved, upper case, 300 characters, empty and dot segments x references, digests, session ids, state tokens, ranges, n/last, page/cache, digest and mount parameters at and beyond their bounds x bodies and Content-Types) is executed from each of 4-5 repository states (empty, populated, open sessions incl. one with a declared digest, paged referrers, converted layout with the referrers API disabled) on both stores, each on a fresh instance; in the thorough tier every request is sent again from every distinct state that one request leaves behind (depth 2: ended sessions, deleted content, half-written uploads), with the condition-specific code only demanded for first requests; a request refused as NAME_INVALID is sent twice more and must be refused the same way; " +
 			"oracle: no panic, status < 500, error bodies are OCI error documents with a registered code (and the code named for the condition where the condition is unambiguous), only names of the grammar reach the store or the filesystem; non-trivial = request answered with a 4xx or a state change",
 		Assume: []string{"storage is healthy throughout", "the expected code is only demanded where the condition is unambiguous (lists in the check source)"},
 		Specs:  c15Specs,
